@@ -4,6 +4,9 @@ from formula import And, Not, Or
 from interp import V, core, roots, places, calls_of, Const, Def, TagV, CallV, DerV, Via, Sel, Param, StructV, MutV, IndexV, OpV, PhiV
 
 
+from interp import roots as roots  # re-export for rule modules
+
+
 def norm(items):
     """Flatten nested Cond, drop dead branches."""
     out = []
